@@ -520,6 +520,10 @@ func (sel *Selection) UpdateInto(toNode Node) error {
 
 func (sel *Selection) ReplaceFrom(fromNode Node) error {
 	parent := sel.parent
+	if parent == nil {
+		// replacing is delete then insert into the parent, the top selection has none
+		return fmt.Errorf("%w. the top selection cannot be replaced, replace its children", fc.BadRequestError)
+	}
 	if err := sel.Delete(); err != nil {
 		return err
 	}
